@@ -1,4 +1,4 @@
-module spike11
+module spike12
 
 go 1.23
 
